@@ -13,7 +13,7 @@ for f in sensitivity/*.diff; do
     c12-*|undo-fix-structure-types|undo-fix-used-intrinsics|undo-fix-const-fn-symbol|undo-fix-call-convention|undo-fix-void-main-status) checks="C12";;
     c13-*|undo-fix-crlf-spans|undo-fix-trailing-backslash-span|undo-fix-report-line-numbers|undo-fix-duplicate-external-function|undo-fix-silent-type-error|undo-fix-duplicate-label-location) checks="C13";;
     undo-fix-import-order) checks="C13 C12";;
-    c18-*|undo-fix-out-dir-escape|undo-fix-artefact-collision|undo-fix-broken-pipe) checks="C18";;
+    c18-*|undo-fix-out-dir-escape|undo-fix-artefact-collision|undo-fix-broken-pipe|undo-fix-wasm-triple) checks="C18";;
     c19-*) checks="C19";;
     *) checks="C12";;
   esac
